@@ -3,5 +3,5 @@
 # property and rewrite /verif/seeded/RESULTS.txt. /repo must be clean; it is restored after every change. Development only.
 cd "$(dirname "$0")/.." || exit 2
 TIER=${1:-quick}
-for d in $(ls seeded | grep "^[CLMS][0-9]"); do tools/try_seeded.sh "$d" "$TIER" 2>&1 | head -1; done | tee seeded/RESULTS.txt
+for d in $(ls seeded | grep "^[CLMSX][0-9]"); do tools/try_seeded.sh "$d" "$TIER" 2>&1 | head -1; done | tee seeded/RESULTS.txt
 echo "caught: $(grep -c 'exit 1;' seeded/RESULTS.txt) of $(grep -c '^seeded' seeded/RESULTS.txt)"
